@@ -124,6 +124,9 @@ class Sched:
     # ---- fsi hooks -------------------------------------------------------------------------
     def on_boundary(self, ev):
         self.yield_point(("fs", ev.kind, ev.rel(self.ctx.root)))
+        extra = getattr(self, "extra_on_op", None)
+        if extra is not None:
+            extra(self.me(), ev)       # runs when the thread is resumed, right before the operation: may raise an injected fault
 
     def flock_hook(self, real, fd, op, path):
         t = self.me()
